@@ -420,11 +420,27 @@ namespace C13
     domain.create(args.query("mesh")->second);
     domain.add_trafo_mesh_part_charts();
     const String cubature("auto-degree:5");
-    SystemLevelType sys;
-    DomainLevelType& dl = *domain.front();
+    // one system level per physical level: gates, coarse muxers and (tuple) grid transfers across all level pairs
+    std::deque<std::shared_ptr<SystemLevelType>> system_levels;
+    const Index num_levels = Index(domain.size_physical());
+    for(Index i = 0; i < num_levels; ++i) system_levels.push_back(std::make_shared<SystemLevelType>());
     g_phase = "assemble_gate";
-    dl.domain_asm.compile_all_elements();
-    sys.assemble_gates(domain.front());
+    for(Index i = 0; i < num_levels; ++i)
+    {
+      domain.at(i)->domain_asm.compile_all_elements();
+      system_levels.at(i)->assemble_gates(domain.at(i));
+    }
+    g_phase = "assemble_transfer";
+    for(Index i = 0; (i < domain.size_physical()) && ((i + 1) < domain.size_virtual()); ++i)
+    {
+      system_levels.at(i)->assemble_coarse_muxers(domain.at(i + 1));
+      if((i + 1) < domain.size_physical())
+        system_levels.at(i)->assemble_transfers(*system_levels.at(i + 1), domain.at(i), domain.at(i + 1), cubature);
+      else
+        system_levels.at(i)->assemble_transfers(domain.at(i), domain.at(i + 1), cubature);
+    }
+    SystemLevelType& sys = *system_levels.front();
+    DomainLevelType& dl = *domain.front();
     g_phase = "assemble_matrix";
     sys.assemble_velo_struct(dl.space_velo);
     sys.assemble_pres_struct(dl.space_pres);
@@ -487,6 +503,110 @@ namespace C13
       dump("A_u", y);
       sys.matrix_sys.apply(y, u, w, -0.5);
       dump("w_minus_half_A_u", y);
+    }
+    // ---- three-component tuple vector (velocity, pressure, second scalar field on the pressure space) over a
+    //      TupleMirror<V,P,P> gate built from the component gates: sync_0 / sync_1 / dot / norm
+    {
+      typedef typename SystemLevelType::LocalVeloVector LV; typedef typename SystemLevelType::LocalPresVector LP;
+      typedef LAFEM::TupleVector<LV, LP, LP> L3;
+      typedef LAFEM::TupleMirror<typename SystemLevelType::VeloMirror, typename SystemLevelType::PresMirror, typename SystemLevelType::PresMirror> M3;
+      typedef Global::Vector<L3, M3> G3;
+      g_phase = "tuple3_gate";
+      Global::Gate<L3, M3> gate3;
+      Control::Asm::build_gate_tuple(gate3, sys.gate_velo, sys.gate_pres, sys.gate_pres);
+      auto fill3 = [&](G3& v, std::uint64_t salt, bool rank_dependent)
+      {
+        const std::uint64_t rs = rank_dependent ? 17u * std::uint64_t(comm.rank() + 1) : 0u;
+        auto& vv = v.local().template at<0>(); auto& vp = v.local().template at<1>(); auto& vq = v.local().template at<2>();
+        for(Index i = 0; i < vx.size(); ++i)
+        {
+          Tiny::Vector<double, 2> t; t[0] = key_value(vx(i), vy(i), data_seed + salt + rs); t[1] = key_value(vx(i), vy(i), data_seed + salt + 7u + rs);
+          vv(i, t);
+        }
+        for(Index i = 0; i < px.size(); ++i) { vp(i, key_value(px(i), py(i), data_seed + salt + 13u + rs)); vq(i, key_value(px(i), py(i), data_seed + salt + 29u + rs)); }
+      };
+      auto dump3 = [&](const char* name, const G3& v)
+      {
+        dump_blocked((String(name) + ".t3").c_str(), v.local().template at<0>(), vx, vy);
+        dump_vec((String(name) + ".t3p").c_str(), v.local().template at<1>(), px, py);
+        dump_vec((String(name) + ".t3q").c_str(), v.local().template at<2>(), px, py);
+      };
+      {
+        G3 v(&gate3, gate3.get_freqs().clone(LAFEM::CloneMode::Layout));
+        fill3(v, 700u, true);
+        dump3("sync0_pre", v); g_phase = "tuple3_sync0"; v.sync_0(); dump3("sync0_post", v);
+      }
+      {
+        G3 v(&gate3, gate3.get_freqs().clone(LAFEM::CloneMode::Layout));
+        fill3(v, 800u, true);
+        dump3("sync1_pre", v); g_phase = "tuple3_sync1"; v.sync_1(); dump3("sync1_post", v);
+      }
+      {
+        G3 u(&gate3, gate3.get_freqs().clone(LAFEM::CloneMode::Layout)), w(&gate3, gate3.get_freqs().clone(LAFEM::CloneMode::Layout));
+        fill3(u, 900u, false); fill3(w, 950u, false);
+        dump3("u", u); dump3("w", w);
+        g_phase = "tuple3_dot";
+        dump_scalar("t3_dot_u_w", u.dot(w));
+        dump_scalar("t3_norm2_u", u.norm2());
+      }
+    }
+    // ---- grid transfer of the tuple (velocity, pressure) vector across every level pair of the (possibly
+    //      multi-layered) hierarchy: the muxers join / split TupleMirror buffers of all children of a parent
+    for(Index i = 0; (i < domain.size_physical()) && ((i + 1) < domain.size_virtual()); ++i)
+    {
+      SystemLevelType& lvl_f = *system_levels.at(i);
+      const int lev_f = domain.at(i)->get_level_index();
+      ScalarVector fvx, fvy, fpx, fpy;
+      {
+        auto fx = Analytic::create_lambda_function_scalar_2d([](double x, double) { return x; });
+        auto fy = Analytic::create_lambda_function_scalar_2d([](double, double y) { return y; });
+        Assembly::Interpolator::project(fvx, fx, domain.at(i)->space_velo); Assembly::Interpolator::project(fvy, fy, domain.at(i)->space_velo);
+        Assembly::Interpolator::project(fpx, fx, domain.at(i)->space_pres); Assembly::Interpolator::project(fpy, fy, domain.at(i)->space_pres);
+      }
+      auto fill_lvl = [&](GlobalSystemVector& v, const ScalarVector& ax, const ScalarVector& ay, const ScalarVector& bx, const ScalarVector& by, std::uint64_t salt)
+      {
+        auto& vv = v.local().template at<0>(); auto& vp = v.local().template at<1>();
+        for(Index k = 0; k < ax.size(); ++k)
+        {
+          Tiny::Vector<double, 2> t; t[0] = key_value(ax(k), ay(k), data_seed + salt); t[1] = key_value(ax(k), ay(k), data_seed + salt + 7u);
+          vv(k, t);
+        }
+        for(Index k = 0; k < bx.size(); ++k) vp(k, key_value(bx(k), by(k), data_seed + salt + 13u));
+      };
+      auto dump_lvl = [&](const String& name, const GlobalSystemVector& v, const ScalarVector& ax, const ScalarVector& ay, const ScalarVector& bx, const ScalarVector& by)
+      {
+        dump_blocked(name.c_str(), v.local().template at<0>(), ax, ay);
+        dump_vec((name + ".p").c_str(), v.local().template at<1>(), bx, by);
+      };
+      GlobalSystemVector d_f(&lvl_f.gate_sys, lvl_f.gate_sys.get_freqs().clone(LAFEM::CloneMode::Layout));
+      GlobalSystemVector p_f(&lvl_f.gate_sys, lvl_f.gate_sys.get_freqs().clone(LAFEM::CloneMode::Layout));
+      fill_lvl(d_f, fvx, fvy, fpx, fpy, 3000u + std::uint64_t(lev_f));
+      g_phase = "tuple_transfer";
+      if((i + 1) < domain.size_physical())
+      {
+        SystemLevelType& lvl_c = *system_levels.at(i + 1);
+        const int lev_c = domain.at(i + 1)->get_level_index();
+        ScalarVector cvx, cvy, cpx, cpy;
+        {
+          auto fx = Analytic::create_lambda_function_scalar_2d([](double x, double) { return x; });
+          auto fy = Analytic::create_lambda_function_scalar_2d([](double, double y) { return y; });
+          Assembly::Interpolator::project(cvx, fx, domain.at(i + 1)->space_velo); Assembly::Interpolator::project(cvy, fy, domain.at(i + 1)->space_velo);
+          Assembly::Interpolator::project(cpx, fx, domain.at(i + 1)->space_pres); Assembly::Interpolator::project(cpy, fy, domain.at(i + 1)->space_pres);
+        }
+        GlobalSystemVector r_c(&lvl_c.gate_sys, lvl_c.gate_sys.get_freqs().clone(LAFEM::CloneMode::Layout));
+        GlobalSystemVector v_c(&lvl_c.gate_sys, lvl_c.gate_sys.get_freqs().clone(LAFEM::CloneMode::Layout));
+        lvl_f.transfer_sys.rest(d_f, r_c);
+        dump_lvl(String("rest_to_L") + stringify(lev_c), r_c, cvx, cvy, cpx, cpy);
+        fill_lvl(v_c, cvx, cvy, cpx, cpy, 4000u + std::uint64_t(lev_c));
+        lvl_f.transfer_sys.prol(p_f, v_c);
+        dump_lvl(String("prol_rnd_to_L") + stringify(lev_f), p_f, fvx, fvy, fpx, fpy);
+      }
+      else
+      {
+        lvl_f.transfer_sys.rest_send(d_f);
+        lvl_f.transfer_sys.prol_recv(p_f);
+        dump_lvl(String("prol_rnd_to_L") + stringify(lev_f), p_f, fvx, fvy, fpx, fpy);
+      }
     }
   }
 
